@@ -22,11 +22,11 @@ def gen(run):
 
 
 def correspond(run, corr):
-    wc.correspond(run, corr, CORR_PROFILES, 120, 3000)
+    wc.correspond(run, corr, CORR_PROFILES, 400, 4000)
 
 
 def search(run, corr, deep):
-    return wc.oracle(run, corr, deep, ID, ORACLE_PROFILES, 150, 4000)
+    return wc.oracle(run, corr, deep, ID, ORACLE_PROFILES, 400, 5000)
 
 
 def replay(run, path):
